@@ -39,7 +39,17 @@ def run_obligations(obs, tier, seed, jobs=None):
     pending = list(enumerate(obs))
     running = {}
     results = [None] * len(obs)
+    # the thorough tier is sized by total wall time: obligations not started within the property-level deadline are reported
+    # inconclusive (never counted as discharged); SYMX_THOROUGH_DEADLINE_S=0 disables the deadline for an open-ended run
+    deadline = float(os.environ.get('SYMX_THOROUGH_DEADLINE_S', '1500')) if tier == 'thorough' else 0.0
+    t_start = time.time()
     while pending or running:
+        if deadline and pending and time.time() - t_start > deadline:
+            for i, ob in pending:
+                results[i] = _dead(ob, 'not started: the property-level time budget of the thorough tier (%ds, '
+                                       'SYMX_THOROUGH_DEADLINE_S) was used up by the obligations before it' % deadline, status='inconclusive')
+            pending = []
+            continue
         while pending and len(running) < jobs:
             i, ob = pending.pop(0)
             pc, cc = ctx.Pipe(duplex=False)
@@ -129,6 +139,13 @@ def run_property(prop, tier='quick', seed=0, only=None, jobs=None, verbose=True)
     sys.path.insert(0, REPO)
     mod = importlib.import_module('harness.' + prop)
     obs = mod.obligations(tier)
+    if tier == 'thorough':
+        # what the quick tier also runs goes first, so that the property-level deadline cuts the extras, not the core
+        try:
+            qids = set(o.id for o in mod.obligations('quick'))
+            obs = [o for o in obs if o.id in qids] + [o for o in obs if o.id not in qids]
+        except Exception:
+            pass
     if only:
         obs = [o for o in obs if any(o.id.startswith(x) or x in o.id for x in only)]
     for o in obs:
